@@ -26,6 +26,9 @@ func Verif_C14_books_under_faults() {
 		}
 	}
 	W.bank.faults = true
+	if verif_tier() == 0 {
+		W.bank.maxFaults = 2 // quick: only the first two bank calls of the block may fail (each independently)
+	}
 	verifBeginBlock(ctx, k)
 	W.bank.faults = false
 	verifC03Post(k, ctx)
@@ -54,10 +57,12 @@ type c14Result struct {
 // leftover) to every destination what two fault-free blocks deliver, up to the 1e-18 truncation of the shares.
 func Verif_C14_made_up_later() {
 	shape := verif_choice("shape", 2)
-	burn := verif_dec_range("burn1", "0", "499999999999999999")
-	share := verif_dec_range("share1", "0", "499999999999999999")
-	in1 := verif_int_range("inflowBlock1", "1", dMaxAmt)
-	in2 := verif_int_range("inflowBlock2", "0", dMaxAmt)
+	// generic position: every share of every block is worth at least ten coins, so every destination is paid in every block
+	// (the sub-coin corner cases of the payout logic are covered by C03 / books_under_faults)
+	burn := verif_dec_range("burn1", "100000000000000000", "400000000000000000")
+	share := verif_dec_range("share1", "100000000000000000", "400000000000000000")
+	in1 := verif_int_range("inflowBlock1", "100", dMaxAmt)
+	in2 := verif_int_range("inflowBlock2", "100", dMaxAmt)
 	run := func(faulty bool) c14Result {
 		k := verifDistKeeper()
 		ctx := verifCtx(verif_time_range("now", 1600000000, 1900000000))
@@ -79,9 +84,14 @@ func Verif_C14_made_up_later() {
 			fundAddr = verifModuleAddr(dVRC)
 		}
 		W.bank.fund(fundAddr, dDenom, in1)
-		W.bank.faults = faulty
+		// quick: in the faulty world every bank call of the first block fails; thorough: an independent symbolic flag per call
+		if verif_tier() > 0 {
+			W.bank.faults = faulty
+		} else {
+			W.bank.failAll = faulty
+		}
 		verifBeginBlock(ctx, k)
-		W.bank.faults = false
+		W.bank.faults, W.bank.failAll = false, false
 		W.bank.fund(fundAddr, dDenom, in2)
 		verifBeginBlock(ctx, k)
 		states := k.GetAllStates(ctx)
